@@ -3,6 +3,8 @@
 From Coq Require Import List ZArith Bool.
 From V Require Import Gen.Params Lib.Hex
      AmpToken.AmpModel AmpToken.AmpProofs AmpToken.TokenModel AmpToken.TokenProofs.
+From V Require SentPH.Model SentPH.ProofsScalars AmpToken.AmpFull.
+From V Require Import AmpToken.StatelessModel AmpToken.StatelessProofs.
 Import ListNotations.
 Open Scope Z_scope.
 
@@ -73,6 +75,43 @@ Theorem C14_timer_armed_when_unblocked : forall validated0 pto ops,
   limited s = false -> hasOutstandingCrypto (tm s) = true -> alarm (tm s) <> 0.
 Proof. exact timer_armed_when_unblocked. Qed.
 Print Assumptions C14_timer_armed_when_unblocked.
+
+(** The same bound on unit C06's FULL model of sentPacketHandler (V.SentPH.Model: packet history,
+    ACK processing, loss and PTO timers, packet-number skipping, the MaxTrackedSentPackets /
+    MaxOutstandingSentPackets causes of SendNone/SendAck, DropPackets, MigratedPath ...), so the claim does
+    not rest on the slice abstraction: (i) C06's theorem (every SentPacket individually gated) with the
+    factor fixed to 3; (ii) the form the connection realises — ONE SendMode check per coalesced datagram,
+    then a SentPacket for each of its packets: bytesSent <= 3 * bytesReceived + size of the last datagram. *)
+Theorem C14_amplification_full_handler : forall validated ipn period maxPeriod rnd0 ops,
+  0 <= ipn ->
+  let i := SentPH.Model.init false validated ipn period maxPeriod rnd0 in
+  SentPH.ProofsScalars.gated i ops ->
+  SentPH.Model.sPAV (SentPH.Model.run i ops) = false ->
+  SentPH.Model.sSent (SentPH.Model.run i ops)
+    <= 3 * SentPH.Model.sRecv (SentPH.Model.run i ops) + SentPH.ProofsScalars.last_size i ops 0.
+Proof. exact AmpFull.amplification_full_handler. Qed.
+Print Assumptions C14_amplification_full_handler.
+
+Theorem C14_amplification_full_handler_datagrams : forall validated ipn period maxPeriod rnd0 h,
+  0 <= ipn ->
+  let i := SentPH.Model.init false validated ipn period maxPeriod rnd0 in
+  Forall AmpFull.wf_item h -> AmpFull.dgated i h ->
+  SentPH.Model.sPAV (SentPH.Model.run i (AmpFull.flat h)) = false ->
+  SentPH.Model.sSent (SentPH.Model.run i (AmpFull.flat h))
+    <= 3 * SentPH.Model.sRecv (SentPH.Model.run i (AmpFull.flat h)) + AmpFull.last_dgram i h 0.
+Proof. exact AmpFull.amplification_full_handler_datagrams. Qed.
+Print Assumptions C14_amplification_full_handler_datagrams.
+
+Example C14_amplification_full_handler_nonvacuous :
+  let i := SentPH.Model.init false false 0 256 131072 100 in
+  Forall AmpFull.wf_item AmpFull.full_example /\ AmpFull.dgated i AmpFull.full_example /\
+  SentPH.Model.sPAV (SentPH.Model.run i (AmpFull.flat AmpFull.full_example)) = false /\
+  SentPH.Model.sSent (SentPH.Model.run i (AmpFull.flat AmpFull.full_example)) = 3752 /\
+  SentPH.Model.sRecv (SentPH.Model.run i (AmpFull.flat AmpFull.full_example)) = 1200 /\
+  AmpFull.last_dgram i AmpFull.full_example 0 = 1400 /\
+  SentPH.Model.isAmplificationLimited (SentPH.Model.run i (AmpFull.flat AmpFull.full_example)) = true.
+Proof. exact AmpFull.full_example_run. Qed.
+Print Assumptions C14_amplification_full_handler_nonvacuous.
 
 (** Histories that end with a local close (as repaired by fixes/C14-close-ungated.patch): the bound
     over EVERYTHING the server puts on the wire — packets registered with the handler, the
@@ -317,3 +356,68 @@ Proof.
   exact (conj (proj2 Instance.instance_valid) Instance.instance_invalid).
 Qed.
 Print Assumptions C14_token_instance.
+
+(** * (d) Stateless replies: what the server sends towards an address before a connection exists
+      (Transport.handlePacket, baseServer.handlePacketImpl / handleInitialImpl and the senders of Version
+      Negotiation, Retry, INVALID_TOKEN / CONNECTION_REFUSED, stateless reset), per datagram *)
+
+(** The reply (there is at most one) is never larger than three times the datagram that caused it. *)
+Theorem C14_stateless_reply_bound : forall c n f known i,
+  0 <= n -> inputs_ok c f i -> replySize (the_reply c n f known i) <= 3 * n.
+Proof. exact reply_bound. Qed.
+Print Assumptions C14_stateless_reply_bound.
+
+(** Sharper: a long-header reply needs a datagram of >= 1200 bytes and is itself < 1200 bytes;
+    a stateless reset is 42 bytes and strictly smaller than the packet it answers. *)
+Theorem C14_stateless_reply_small : forall c n f known i,
+  inputs_ok c f i ->
+  match the_reply c n f known i with
+  | RNone => True
+  | RReset s => s = 42 /\ s < n
+  | r => 1200 <= n /\ replySize r < 1200
+  end.
+Proof. exact reply_small. Qed.
+Print Assumptions C14_stateless_reply_small.
+
+Theorem C14_stateless_long_reply_needs_1200 : forall c n f known i,
+  match the_reply c n f known i with RVN _ | RRetry _ | RErr _ _ => 1200 <= n | _ => True end.
+Proof. exact long_reply_needs_1200. Qed.
+Print Assumptions C14_stateless_long_reply_needs_1200.
+
+(** Version Negotiation packets are never answered; neither are long-header datagrams under 1200
+    bytes nor short-header datagrams of at most 42 bytes (anything that could be our own reset). *)
+Theorem C14_stateless_vn_never_answered : forall c n h known i,
+  ver h = 0 -> the_reply c n (FLong h) known i = RNone.
+Proof. exact vn_never_answered. Qed.
+Print Assumptions C14_stateless_vn_never_answered.
+
+Theorem C14_stateless_small_never_answered : forall c n known i,
+  (forall h, n < 1200 -> the_reply c n (FLong h) known i = RNone) /\
+  (n <= 42 -> the_reply c n FShort known i = RNone).
+Proof.
+  exact (fun c n known i => conj (fun h => small_long_never_answered c n h known i) (small_short_never_answered c n known i)).
+Qed.
+Print Assumptions C14_stateless_small_never_answered.
+
+(** No reply to a reply: whatever was sent, arriving at any server in any configuration, meets silence. *)
+Theorem C14_stateless_no_reply_to_reply : forall c n f known i,
+  inputs_ok c f i ->
+  forall c' known' i',
+  match the_reply c n f known i with
+  | RNone => True
+  | RReset s => the_reply c' s FShort known' i' = RNone
+  | r => forall h', the_reply c' (replySize r) (FLong h') known' i' = RNone
+  end.
+Proof. exact no_reply_to_reply. Qed.
+Print Assumptions C14_stateless_no_reply_to_reply.
+
+Example C14_stateless_examples :
+  inputs_ok ex_cfg (FLong (LH 1 0 8 4 true)) ex_info /\
+  the_reply ex_cfg 1200 (FLong (LH 2 0 8 4 true)) false ex_info = RVN 27 /\
+  the_reply ex_cfg 1199 (FLong (LH 2 0 8 4 true)) false ex_info = RNone /\
+  the_reply ex_cfg 1200 (FLong (LH 1 0 8 4 true)) false ex_info = RRetry 132 /\
+  the_reply (SCfg true (-1) false false true 4 1 3600000000000 5000000000) 1200 (FLong (LH 1 0 8 4 true)) false ex_info = RErr sl_ConnectionRefused 46 /\
+  the_reply ex_cfg 43 FShort false ex_info = RReset 42 /\
+  the_reply ex_cfg 42 FShort false ex_info = RNone.
+Proof. exact reply_examples. Qed.
+Print Assumptions C14_stateless_examples.
